@@ -33,6 +33,7 @@ ASSUMPTIONS = [
     "same-system expectations are computed from the stored float64 coordinates (== iff all equal; isclose iff every |a_i-b_i| <= atol + rtol*|b_i|)",
     "mixed-system pairs only get the coherence clauses (symmetry, != is the negation of ==, == implies isclose, monotonicity); truth values come from the implementation",
     "numpy.isclose / numpy.allclose are compared with the methods on the NumPy backend only (the backend that implements the NumPy function protocol for them)",
+    "mixed pairings (object x NumPy, generic x momentum NumPy/Awkward/object, Awkward x NumPy/object/record, each in both operand orders): every form the pairing supports on the pinned tree must agree element by element with the NumPy-backend methods; numpy.isclose/numpy.allclose are only required where a NumPy-backend vector is one of the operands and no Awkward operand is involved",
     "scalar-valued operators on Awkward *records* are compared with their methods when they return; see known_findings.json for the recorded Awkward-side failure",
 ]
 CAP_S = {"quick": 900, "thorough": 3600}
@@ -41,7 +42,7 @@ EXACT = {2: (0.625, 0.0), 3: (0.625, 0.0, 0.0), 4: (0.625, 0.0, 0.0, 1.625)}
 
 
 def bounds(tier):
-    return {"tier": tier, "system_pairs": "all 4 / 36 / 144", "tolerance_pairs": TOLS, "backends": ["OBJ", "NP", "AKA", "AKR"],
+    return {"tier": tier, "system_pairs": "all 4 / 36 / 144", "tolerance_pairs": TOLS, "backends": ["OBJ", "NP", "AKA", "AKR"], "mixed_pairings_ordered": [list(m) for m in MIXED],
             "pair_classes": ["identical", "one component (each in turn)", "two components", "all components", "nearly equal 1e-12/1e-7/1e-3", "exact across systems", "rounded across systems", "different across systems"]}
 
 
@@ -49,7 +50,14 @@ def shards(tier):
     out = []
     for dim in (2, 3, 4):
         for sa in L.SYSTEMS[dim]:
-            out.append({"dim": dim, "sysA": list(sa)})
+            sbs = [list(sb) for sb in L.SYSTEMS[dim]]
+            # the same-system partner (the heavy one) first, the rest in chunks of 4
+            same = [list(sa)]
+            rest = [sb for sb in sbs if sb != list(sa)]
+            out.append({"dim": dim, "sysA": list(sa), "sysBs": same})
+            for i in range(0, len(rest), 4):
+                out.append({"dim": dim, "sysA": list(sa), "sysBs": rest[i : i + 4]})
+    out.sort(key=lambda sh: -(sh["dim"] ** 2) * (10 if sh["sysBs"] == [sh["sysA"]] else 1))
     return out
 
 
@@ -266,12 +274,129 @@ def check_pairs(res: Result, dim, sa, sb, plist, backend, flavor="generic"):
                 viol("raises", 0, f"allclose raised {type(e).__name__}: {e}", {"form": "allclose"})
 
 
+# ---------------------------------------------------------------- mixed backend / flavor pairings
+# (left kind, right kind): which side of a binary form is which backend / flavor.  Python and NumPy pick the operand
+# whose protocol hook (__eq__, __array_ufunc__, __array_function__, Awkward behavior) handles the call by operand
+# *order and class relationship* (a subclass on the right wins), so each ordered pairing is its own dispatch path.
+MIXED = [("OBJ", "NP"), ("NP", "OBJ"), ("NP", "NPm"), ("NPm", "NP"), ("OBJ", "OBJm"), ("OBJm", "OBJ"), ("AKA", "NP"), ("NP", "AKA"), ("AKA", "OBJ"), ("OBJ", "AKA"),
+         ("AKR", "AKA"), ("AKA", "AKR"), ("AKA", "AKAm"), ("AKAm", "AKA")]
+# forms that the pairing supports on the pinned tree (numpy.isclose / numpy.allclose are a NumPy-backend protocol;
+# Awkward answers numpy.isclose itself, field by field, which is not a vector operation)
+CLOSE_FUNCS = {("OBJ", "NP"), ("NP", "OBJ"), ("NP", "NPm"), ("NPm", "NP")}
+ALLCLOSE_METHOD = {("NP", "OBJ"), ("NP", "NPm"), ("NPm", "NP"), ("AKA", "NP"), ("AKA", "OBJ"), ("AKA", "AKR"), ("AKA", "AKAm"), ("AKAm", "AKA")}
+
+
+def _mk(kind, system, rows):
+    """-> (operand or list of operands, elementwise?)"""
+    fl = "momentum" if kind.endswith("m") else "generic"
+    k = kind.rstrip("m")
+    if k == "OBJ":
+        return [B.make_obj(system, fl, r) for r in rows], True
+    if k == "AKR":
+        return [B.make_akr(system, fl, r) for r in rows], True
+    if k == "NP":
+        return B.make_np(system, fl, rows), False
+    return B.make_ak(system, fl, rows, "flat"), False
+
+
+def check_mixed(res: Result, dim, sa, sb, plist, pairings=None):
+    """Every comparison form on every ordered mixed pairing agrees, element by element, with the method forms of the
+    plain NumPy backend (whose truth values check_pairs has tied to the stored coordinates)."""
+    n = len(plist)
+    if n == 0:
+        return
+    ra = [p[1] for p in plist]
+    rb = [p[2] for p in plist]
+    na, nb = B.make_np(sa, "generic", ra), B.make_np(sb, "generic", rb)
+    ref = {"eq": [bool(v) for v in na.equal(nb)], "ne": [bool(v) for v in na.not_equal(nb)]}
+    for rtol, atol in TOLS:
+        ref[(rtol, atol)] = [bool(v) for v in na.isclose(nb, rtol=rtol, atol=atol)]
+
+    def lst(r):
+        if isinstance(r, ak.Array):
+            r = ak.to_list(r)
+            return [bool(v) for v in (r if isinstance(r, list) else [r])]
+        return [bool(v) for v in np.asarray(r).reshape(-1)]
+
+    for lk, rk in pairings or MIXED:
+        left, lel = _mk(lk, sa, ra)
+        right, rel = _mk(rk, sb, rb)
+        case0 = {"dim": dim, "sysA": list(sa), "sysB": list(sb), "mixed": [lk, rk]}
+
+        def run(f):
+            """element-wise list of bools for form f over all pairs (object/record sides are taken one at a time against
+            the matching one-element slice of the array side)"""
+            res.transitions += 1
+            if not lel and not rel:
+                return lst(f(left, right))
+            out = []
+            for i in range(n):
+                x = left[i] if lel else left[i : i + 1]
+                y = right[i] if rel else right[i : i + 1]
+                out.extend(lst(f(x, y))[:1])
+            return out
+
+        forms = [("method.equal", "eq", lambda x, y: x.equal(y)), ("method.not_equal", "ne", lambda x, y: x.not_equal(y)), ("==", "eq", lambda x, y: x == y), ("!=", "ne", lambda x, y: x != y),
+                 ("numpy.equal", "eq", lambda x, y: np.equal(x, y)), ("numpy.not_equal", "ne", lambda x, y: np.not_equal(x, y))]
+        for rtol, atol in TOLS:
+            forms.append((f"method.isclose", (rtol, atol), lambda x, y, r=rtol, a=atol: x.isclose(y, rtol=r, atol=a)))
+            if (lk, rk) in CLOSE_FUNCS:
+                forms.append((f"numpy.isclose", (rtol, atol), lambda x, y, r=rtol, a=atol: np.isclose(x, y, rtol=r, atol=a)))
+        res.states += n
+        for name, key, f in forms:
+            case = dict(case0, form=name, tol=list(key) if isinstance(key, tuple) else None)
+            cls = f"mixed[{lk},{rk}]|{name}|{dim}D|{L.sysname(sa)}|{L.sysname(sb)}"
+            try:
+                got = run(f)
+            except Exception as e:  # noqa: BLE001
+                res.violation(cls + "|raises", f"{name}({lk}, {rk}) raised {type(e).__name__}: {str(e).strip()[:120]}", case)
+                continue
+            want = ref[key]
+            bad = [i for i in range(n) if i >= len(got) or got[i] != want[i]]
+            for i in bad[:2]:
+                res.violation(cls, f"{name}({lk} a, {rk} b) = {got[i] if i < len(got) else None} but the NumPy-backend method gives {want[i]} (pair {plist[i][0]})", dict(case, a=list(ra[i]), b=list(rb[i]), label=plist[i][0]))
+            res.traces += n - len(bad)
+            res.evaluations += n - len(bad)
+            res.nontrivial += n - len(bad)
+        # allclose: method and numpy function on whole operands (array sides only)
+        for rtol, atol in TOLS:
+            want = all(ref[(rtol, atol)])
+            afs = []
+            if (lk, rk) in ALLCLOSE_METHOD:
+                afs.append(("method.allclose", lambda x, y: x.allclose(y, rtol=rtol, atol=atol)))
+            if (lk, rk) in CLOSE_FUNCS:
+                afs.append(("numpy.allclose", lambda x, y: np.allclose(x, y, rtol=rtol, atol=atol)))
+            for name, f in afs:
+                case = dict(case0, form=name, tol=[rtol, atol])
+                cls = f"mixed[{lk},{rk}]|{name}|{dim}D|{L.sysname(sa)}|{L.sysname(sb)}"
+                res.transitions += 1
+                try:
+                    if lel or rel:
+                        got = all(bool(f(left[i] if lel else left[i : i + 1], right[i] if rel else right[i : i + 1])) for i in range(n))
+                    else:
+                        got = bool(f(left, right))
+                except Exception as e:  # noqa: BLE001
+                    res.violation(cls + "|raises", f"{name}({lk}, {rk}) raised {type(e).__name__}: {str(e).strip()[:120]}", case)
+                    continue
+                if got != want:
+                    res.violation(cls, f"{name}({lk} a, {rk} b) = {got} but all(isclose) on the NumPy backend = {want}", case)
+                else:
+                    res.traces += 1
+                    res.evaluations += 1
+                    res.nontrivial += 1
+
+
+def _strided(plist, k):
+    return plist if len(plist) <= k else plist[:: -(-len(plist) // k)]
+
+
 def run_shard(shard, tier):
     res = Result()
     dim = shard["dim"]
     sa = tuple(shard["sysA"])
-    for sb in L.SYSTEMS[dim]:
+    for sb in [tuple(x) for x in shard["sysBs"]]:
         plist = pairs_for(dim, sa, sb, tier)
+        check_mixed(res, dim, sa, sb, plist if tier == "thorough" else _strided(plist, 16))
         for backend in ("OBJ", "NP", "AKA", "AKR"):
             pl = plist
             if backend == "AKR" and tier != "thorough":
@@ -290,5 +415,8 @@ def replay(case):
         plist = pairs_for(dim, sa, sb, "thorough")
     else:
         plist = [(case.get("label") or "replay", tuple(case["a"]), tuple(case["b"]))]
+    if case.get("mixed"):
+        check_mixed(res, dim, sa, sb, plist, [tuple(case["mixed"])])
+        return res
     check_pairs(res, dim, sa, sb, plist, case["backend"])
     return res
